@@ -199,6 +199,16 @@ func runC32(c *ev.Ctx) {
 			me.SetEpoch(idx.Epoch(ep))
 			me.SetLamport(idx.Lamport(lam))
 			if viaBuild {
+				if r.Intn(2) == 0 {
+					// a template that already carries an ID for other epoch/Lamport values, then rebuilt
+					var old [24]byte
+					r.Read(old[:])
+					me.SetEpoch(idx.Epoch(r.Uint32()))
+					me.SetLamport(idx.Lamport(r.Uint32()))
+					me.SetID(old)
+					me.SetEpoch(idx.Epoch(ep))
+					me.SetLamport(idx.Lamport(lam))
+				}
 				return me.Build(rid).ID()
 			}
 			me.SetID(rid)
